@@ -37,18 +37,7 @@ from scanpipe import T, P  # noqa: E402
 
 # Failing inputs of the UNCHANGED tree, reported through ctx.report_failure (the integrator moves
 # them to known_findings.json or commits a fix).  Keys are `class` keys: see classify_failure().
-PENDING_FINDINGS = {
-    'boxed-static-function-dropped':
-        'a static function paired with a bare <glib:boxed> is written by GIRWriter._write_boxed but '
-        'GIRParser._parse_boxed never reads <function> children: it is lost after one read/write cycle',
-    'compound-array-length-misindexed':
-        'GIRParser._parse_compound pairs the i-th <field> ELEMENT with compound.fields[i], which also '
-        'counts anonymous <record>/<union>/<callback> members: an array field with a length= that follows '
-        'an anonymous member loses its length (or the reader aborts with AttributeError)',
-    'map-array-child-dropped':
-        'a GHashTable whose key or value type is an array ((element-type utf8 GStrv)) is written with an '
-        '<array> child, but the reader only collects <type> children of GLib.HashTable: the array becomes gpointer',
-}
+PENDING_FINDINGS = {}
 
 GLIB_GIR = '''<?xml version="1.0"?>
 <repository version="1.2" xmlns="http://www.gtk.org/introspection/core/1.0" xmlns:c="http://www.gtk.org/introspection/c/1.0" xmlns:glib="http://www.gtk.org/introspection/glib/1.0">
@@ -115,27 +104,6 @@ def setup_includes(scratch):
     with open(os.path.join(inc, 'cairo-1.0.gir'), 'w') as f:
         f.write(CAIRO_GIR)
     return inc
-
-
-def _inline_on_return_type():
-    """scanpipe.build_type puts FUNCTION_INLINE on the function type; the real parser (scannerparser.y) puts the
-    function specifier on the declaration specifiers, i.e. the RETURN type, which is where
-    Transformer._create_function looks (symbol.base_type.base_type.function_specifier).  Without this no
-    generated namespace ever contains <function-inline> / <method-inline>.  Idempotent."""
-    orig = scanpipe.build_type
-    if getattr(orig, '_c07_inline', False):
-        return
-
-    def build_type(t, ctx):
-        r = orig(t, ctx)
-        try:
-            if t.get('k') == 'func' and t.get('inline') and r.base_type is not None:
-                r.base_type.function_specifier |= scanpipe.mods().sourcescanner.FUNCTION_INLINE
-        except AttributeError:
-            pass
-        return r
-    build_type._c07_inline = True
-    scanpipe.build_type = build_type
 
 
 # ------------------------------------------------------------------ the real read/write cycle
@@ -541,7 +509,7 @@ class NsGen(object):
         self.dump = []
         self.line = 10
         self.used = set()
-        self.expect = set()     # finding classes this namespace is expected to exhibit
+        self.expect = set()     # PENDING_FINDINGS classes this namespace is expected to exhibit (none at present)
         self.triggers = []      # edits that remove the constructs triggering them (see neutralise)
         self.id = rng.choice(['Foo', 'Foo', 'Foo', 'Bar', 'Gx'])
         self.sym = self.id.lower()
@@ -784,11 +752,10 @@ class NsGen(object):
                     anns.append('(transfer %s)' % rng.choice(['none', 'container', 'full']))
                 add(nm('tbl'), P(T('GHashTable')), anns)
             elif k == 'hash_array':
-                if not self.coin(0.03):
-                    continue
-                self.expect.add('map-array-child-dropped')
-                anns.append(rng.choice(['(element-type utf8 GStrv)', '(element-type GStrv utf8)']))
-                self.triggers.append(('map-array-child-dropped', 'replace-in-comments', anns[-1], '(element-type utf8 utf8)'))
+                # an array as key or value type: <array> nested in <type name="GLib.HashTable"> (fixed by 4965d4a)
+                anns.append(rng.choice(['(element-type utf8 GStrv)', '(element-type GStrv utf8)', '(element-type GStrv GStrv)']))
+                if self.coin(0.3):
+                    anns.append('(transfer %s)' % rng.choice(['none', 'container', 'full']))
                 add(nm('tbl'), P(T('GHashTable')), anns)
             elif k == 'garray':
                 anns.append('(element-type %s)' % rng.choice(['gint', 'guint8', 'gdouble', 'utf8']))
@@ -1087,9 +1054,7 @@ class NsGen(object):
                 out.extend(pair)
                 docs.append((an, ['(array length=%s)' % ln], gen_doc(rng, False)))
                 if anon_seen:
-                    self.expect.add('compound-array-length-misindexed')
-                    self.triggers.append(('compound-array-length-misindexed', 'replace-in-comments',
-                                          '@%s: (array length=%s):' % (an, ln), '@%s:' % an))
+                    self.hit('field:arr_len-after-anonymous-member')    # (misread before 26f8b24)
                 continue
             elif k == 'c_array':
                 f = {'name': nm('fixed'), 'type': {'k': 'array', 'of': T(rng.choice(['int', 'char', 'guint8'])),
@@ -1532,20 +1497,16 @@ class NsGen(object):
                     # no C struct: the type name resolves to the ast.Boxed itself
                     self.records.append(self.camel(w))
                     # (when the pairing as constructor / method is refused — varargs, a skipped instance … — the
-                    # function stays a static function of the boxed type: the known finding; hence the triggers)
+                    # function stays a static function of the boxed type)
                     self.function(sp + '_new', ctor_of=self.camel(w))
-                    self.triggers.append(('boxed-static-function-dropped', 'drop-function', sp + '_new'))
                     self.hit('glib:boxed:constructor')
                     for _ in range(rng.randint(0, 2)):
-                        fn = '%s_%s' % (sp, self.fresh())
-                        self.function(fn, first=('self', P(T(cname))))
-                        self.triggers.append(('boxed-static-function-dropped', 'drop-function', fn))
+                        self.function('%s_%s' % (sp, self.fresh()), first=('self', P(T(cname))))
                         self.hit('glib:boxed:method')
-                if self.coin(0.15):
-                    fn = '%s_%s' % (sp, self.fresh())
-                    self.function(fn, documented=self.coin())
-                    self.expect.add('boxed-static-function-dropped')
-                    self.triggers.append(('boxed-static-function-dropped', 'drop-function', fn))
+                if self.coin(0.3):
+                    # a static function of a bare boxed type (lost by the reader before 8ec1ba5)
+                    self.function('%s_%s' % (sp, self.fresh()), documented=self.coin())
+                    self.hit('glib:boxed:static-function')
                 if self.coin(0.4):
                     self.add_comment(self.block(cname, [], None, []))
         # rename-to / shadows
@@ -2502,7 +2463,6 @@ def _run(ctx, cnt, rng, fast):
         ctx.report_failure('giscanner-import', 'giscanner (ast / girparser / girwriter) cannot be imported: %r\n%s'
                            % (e, traceback.format_exc()[-600:]), {'kind': 'import'})
         return
-    _inline_on_return_type()
     inc = setup_includes(fast)
     judge = Judge(cnt, fast, inc)
     pending = Pending(ctx)
@@ -2597,10 +2557,6 @@ def _run(ctx, cnt, rng, fast):
             triggers = [tuple(t) for t in e.get('triggers', [])]
             st = check_namespace(cfg, triggers, set(t[0] for t in triggers), 'corpus:' + e['name'],
                                  {'kind': 'namespace', 'cfg': e['cfg'], 'triggers': e.get('triggers', [])})
-            if e.get('expect_finding') and st != 'pending':
-                ctx.notes.append('corpus %s: the recorded finding %s no longer reproduces (status %s)'
-                                 % (e['name'], e['expect_finding'], st))
-                cnt.hit('corpus:finding-no-longer-reproduces')
         elif kind == 'gir':
             evaluations += 1
             w1 = e['text'].encode('utf-8')
@@ -2782,12 +2738,8 @@ def _run(ctx, cnt, rng, fast):
                                 % ('union' if union else 'record',
                                    short(deep_diff(real[1], real2[1]) if real2[0] == 'ok' else real2[:2], 400), short(ms, 600)))
                         rep = {'kind': 'members', 'members': ms, 'union': union}
-                        if not r['field_only']:
-                            cnt.hit('members:real-fixpoint:pending(anonymous member before an array length)')
-                            pending.hit('compound-array-length-misindexed', what, rep)
-                        else:
-                            cnt.hit('members:real-fixpoint:FAIL')
-                            ctx.report_failure('members:' + json.dumps(ms, sort_keys=True)[:2000], what, rep)
+                        cnt.hit('members:real-fixpoint:FAIL')
+                        ctx.report_failure('members:' + json.dumps(ms, sort_keys=True)[:2000], what, rep)
                 else:
                     cnt.hit('members:not-wf')
             if real[0] != mw[0] or real[1] != mw[1]:
@@ -2796,8 +2748,8 @@ def _run(ctx, cnt, rng, fast):
                     ctx.broken.append('correspondence c07.write_members differs: members=%s real=%s model=%s'
                                       % (short(ms, 500), short(real[:2], 500), short(mw, 500)))
                 continue
-            if r['wf'] and r['field_only'] and r['write_ok'] and not (r['roundtrip'] and r['fixpoint']):
-                ctx.broken.append('the compiled model contradicts C07_members_roundtrip_partial on %s' % short(ms, 400))
+            if r['wf'] and r['write_ok'] and not (r['roundtrip'] and r['fixpoint']):
+                ctx.broken.append('the compiled model contradicts C07_members_roundtrip on %s' % short(ms, 400))
             if real[0] != 'ok':
                 continue
             mp = norm_model_result(r['parsed'])
@@ -2848,8 +2800,8 @@ def _run(ctx, cnt, rng, fast):
                         ctx.broken.append('model contradicts its theorem on a scanned callable %s of %s' % (c['name'], origin))
                 else:
                     cnt.hit('scanned-callable:not-wf:' + '+'.join(k['not_wf']))
-                    if 'map-array-child-dropped' in expect or origin.startswith('repo:gir/'):
-                        continue        # the known finding / hand-maintained files
+                    if origin.startswith('repo:gir/'):
+                        continue        # hand-maintained files
                     n_notwf += 1
                     if n_notwf <= 3:
                         ctx.broken.append('a side condition of the C07 theorems is not an invariant of scanner output: '
@@ -2864,14 +2816,12 @@ def _run(ctx, cnt, rng, fast):
                 evaluations += 1
                 if k['wf']:
                     cnt.hit('scanned-members:wf,field_only=%s' % k['field_only'])
-                    if k['field_only'] and k['write_ok'] and not (k['roundtrip'] and k['fixpoint']):
-                        ctx.broken.append('model contradicts C07_members_roundtrip_partial on the scanned compound %s of %s'
+                    if k['write_ok'] and not (k['roundtrip'] and k['fixpoint']):
+                        ctx.broken.append('model contradicts C07_members_roundtrip on the scanned compound %s of %s'
                                           % (name, origin))
-                    if not k['field_only'] and k['write_ok'] and not k['roundtrip']:
-                        cnt.hit('scanned-members:model-predicts-the-misindexing-finding')
                 else:
                     cnt.hit('scanned-members:not-wf')
-                    if 'map-array-child-dropped' in expect or origin.startswith('repo:gir/'):
+                    if origin.startswith('repo:gir/'):
                         continue
                     n_notwf += 1
                     if n_notwf <= 3:
@@ -2927,9 +2877,6 @@ def _run(ctx, cnt, rng, fast):
         'fragment written through GIRWriter._write_type/_write_parameter/_write_return_type/_write_callable/_write_signal/'
         '_write_generic and, for records / unions, _write_field (the CONTENT of an anonymous struct / union member is not '
         'modelled: it goes through _write_record / _parse_compound again)',
-        'scanpipe.build_type puts FUNCTION_INLINE on the function type; the real parser puts it on the return type, where '
-        'Transformer._create_function looks: harness/c07.py wraps scanpipe.build_type at run time so that generated '
-        'namespaces contain function-inline / method-inline (scanpipe.py itself is not edited)',
         'AST walk canonicalisation (what a GIR cannot carry): ctype = complete_ctype or ctype; direction None = in; '
         'nullable = nullable and not not_nullable; caller_allocates only for non-in; node introspectable = introspectable '
         'and not skip; empty optional strings = None; line numbers as text; file names relative to the source roots; only '
@@ -2947,7 +2894,6 @@ def replay(ctx, rep):
     cnt = Counter()
     fast = fast_scratch(ctx)
     try:
-        _inline_on_return_type()
         inc = setup_includes(fast)
         judge = Judge(cnt, fast, inc)
         r = rep['replay']
